@@ -188,7 +188,7 @@ def allowed_prefixes(op, before_tree):
                 return [base + '/diff']
 
             return [base + '/options']
-        elif name == 'set_option':
+        elif name in ('set_option', 'del_option'):
             base = node_prefix(path)
             sec = op.get('sec', 'self')
             return [base + ('/options' if sec == 'self' else '/' + sec)]
@@ -206,6 +206,21 @@ def allowed_prefixes(op, before_tree):
         return None
 
     return None
+
+
+def strict_eq(a, b):
+    """Equality that keeps bool / int / float apart at every depth."""
+    if type(a) is not type(b):
+        return False
+
+    if isinstance(a, dict):
+        return a.keys() == b.keys() and all(strict_eq(a[k], b[k])
+                                            for k in a)
+    elif isinstance(a, (list, tuple)):
+        return len(a) == len(b) and all(strict_eq(x, y)
+                                        for x, y in zip(a, b))
+
+    return a == b
 
 
 def field_class(path):
@@ -387,7 +402,11 @@ def _do(world, st, op):
             return {'outcome': 'skip', 'skipped': 'no-tree'}
 
         r = (a == b) if name == 'eq' else (a != b)
-        res = {'value': r, 'snap_equal': snap_tree(a) == snap_tree(b)}
+        sa, sb = snap_tree(a), snap_tree(b)
+        res = {'value': r, 'snap_equal': sa == sb,
+               # == on Python values blurs bool / int / float (1 == True ==
+               # 1.0); JSON does not
+               'strict_equal': strict_eq(sa, sb)}
 
         if res['snap_equal']:
             try:
@@ -449,7 +468,7 @@ def _do(world, st, op):
         setattr(node, op['attr'], value)
         got = getattr(node, op['attr'])
         return {'stored': jsonable(got), 'stored_type': type(got).__name__,
-                'same': type(got) is type(value) and got == value}
+                'same': strict_eq(got, value)}
     elif name == 'set_option':
         node = resolve(tree, op.get('path', []))
 
@@ -465,6 +484,26 @@ def _do(world, st, op):
                 return {'outcome': 'skip', 'skipped': 'no-section'}
 
         node.options[op['key']] = copy.deepcopy(pyval(op.get('value')))
+        return {}
+    elif name == 'del_option':
+        # remove a key from an options dict (the documented direct route)
+        node = resolve(tree, op.get('path', []))
+
+        if node is None:
+            return {'outcome': 'skip', 'skipped': 'no-node'}
+
+        sec = op.get('sec', 'self')
+
+        if sec != 'self':
+            node = getattr(node, sec + '_section', None)
+
+            if node is None:
+                return {'outcome': 'skip', 'skipped': 'no-section'}
+
+        if op.get('key') not in node.options:
+            return {'outcome': 'skip', 'skipped': 'no-key'}
+
+        del node.options[op['key']]
         return {}
     elif name == 'meta_set':
         node = resolve(tree, op.get('path', []))
@@ -513,8 +552,28 @@ def _do(world, st, op):
 
             return v
 
+        def retype(v):
+            # JSON values that are == but not the same data
+            if isinstance(v, bool):
+                return int(v)
+            elif isinstance(v, int):
+                return bool(v) if v in (0, 1) else float(v)
+            elif isinstance(v, float) and v == int(v):
+                return int(v)
+            elif isinstance(v, dict):
+                return {k: retype(x) for k, x in v.items()}
+            elif isinstance(v, list):
+                return [retype(x) for x in v]
+
+            return v
+
         if how == 'reverse_keys' and isinstance(cur, dict):
             new = rev(copy.deepcopy(cur))
+        elif how == 'retype' and isinstance(cur, dict):
+            new = retype(copy.deepcopy(cur))
+
+            if strict_eq(new, cur):
+                new = None
         elif isinstance(cur, str) and cur:
             new = {'append_nl': cur + '\n', 'append_crlf': cur + '\r\n',
                    'strip_nl': cur[:-1] if cur.endswith('\n') else cur + '\n',
@@ -533,7 +592,9 @@ def _do(world, st, op):
             return {'outcome': 'skip', 'skipped': 'not-applicable'}
 
         setattr(node, op['attr'], new)
-        return {'tweaked': how}
+        got = getattr(node, op['attr'])
+        return {'tweaked': how, 'same': strict_eq(got, new),
+                'stored': jsonable(got)}
     elif name == 'to_bytes':
         b1 = tree.to_bytes()
         b2 = tree.to_bytes()
